@@ -2057,7 +2057,7 @@ func (a *align) Concat(c Alignment) (err error) {
 		if !ok {
 			// This sequence is present in a but not in c
 			// So we append full gap sequence to a
-			err = a.appendToSequence(name, []uint8(strings.Repeat(string(GAP), c.Length())))
+			err = a.appendToSequence(name, []uint8(strings.Repeat(string(GAP), max(0, c.Length()))))
 		}
 		return err != nil
 	})
@@ -2069,7 +2069,7 @@ func (a *align) Concat(c Alignment) (err error) {
 		if !ok {
 			// This sequence is present in c but not in a
 			// So we add it to a, with gaps only
-			err = a.AddSequence(name, strings.Repeat(string(GAP), a.Length()), comment)
+			err = a.AddSequence(name, strings.Repeat(string(GAP), max(0, a.Length())), comment)
 		}
 		// Then we append the c sequence to a
 		err = a.appendToSequence(name, sequence)
